@@ -75,6 +75,8 @@ CAP_S = {"quick": 200, "thorough": 2400}
 CL_LOOKUP = "history:lookup-equals-union-of-registrations"
 CL_RAISE = "history:add-on-inapplicable-target-raises"
 CL_ADD_OK = "history:add-on-filterable-target-accepted"
+CL_INVALID = "history:invalid-argument-raises"
+CL_ROUNDTRIP = "history:dumps-loads-round-trip"
 CL_SUBSEQ = "content:order-preserving-subsequence"
 CL_KEPT = "content:kept-line-contains-a-filter"
 CL_LAST = "content:last-match-kept"
@@ -129,8 +131,64 @@ FIXTURES = {
               "bad": [],
               "get": ["SA", "SB", "IA", "IB"]},
 }
-PART_A = [n for g in ("main", "nested", "multi") for n in FIXTURES[g]["comps"]]
-ADD_TARGETS = [n for g in ("main", "nested", "multi") for n in FIXTURES[g]["add"]]
+# Further small shapes, one structural deviation each, declared as typed nodes and BUILT GENERICALLY (see
+# _build_shape).  Node types: pt = registry point (flag), impl = implementation of a point (optionally a first_of over
+# members), fo = a first_of that is not itself an implementation, n = plain simple_file outside any SpecSet,
+# ds = a function datasource built on top of other components, parser / combiner.  In these shapes EVERY node is an
+# add target (the reference decides which registrations are refused) and every datasource is a look-up target.
+SHAPES = {
+    # three implementations of one point
+    "impl3": {"S": ("pt", True), "I1": ("impl", "S"), "I2": ("impl", "S"), "I3": ("impl", "S"), "P": ("parser", ["S"])},
+    # nesting two levels deep: S <- FO = first_of([FI = first_of([N1, N2]), N3])
+    "deep": {"S": ("pt", True), "FO": ("impl", "S", ["FI", "N3"]), "FI": ("fo", ["N1", "N2"]), "N1": ("n",), "N2": ("n",),
+             "N3": ("n",), "P": ("parser", ["S"])},
+    # a combiner over two single-spec parsers of two filterable points
+    "comb2": {"SA": ("pt", True), "SB": ("pt", True), "IA": ("impl", "SA"), "IB": ("impl", "SB"),
+              "PA": ("parser", ["SA"]), "PB": ("parser", ["SB"]), "CX": ("combiner", ["PA", "PB"])},
+    # a combiner sitting on a point directly AND on a parser of another point; SB has no implementation at all
+    "combmix": {"SA": ("pt", True), "SB": ("pt", True), "IA": ("impl", "SA"), "PB": ("parser", ["SB"]),
+                "CM": ("combiner", ["SA", "PB"])},
+    # one parser over three points, one of them non-filterable
+    "three": {"SA": ("pt", True), "SB": ("pt", True), "SC": ("pt", False), "IA": ("impl", "SA"), "IC": ("impl", "SC"),
+              "PX": ("parser", ["SA", "SB", "SC"])},
+    # a helper datasource built on top of the registry point, with its own parser; a parser directly on an implementation
+    "dson": {"S": ("pt", True), "I": ("impl", "S"), "D": ("ds", ["S"]), "PD": ("parser", ["D"]), "PI": ("parser", ["I"]),
+             "P": ("parser", ["S"])},
+}
+
+
+def _declare_shapes():
+    for sh in sorted(SHAPES):
+        nodes = SHAPES[sh]
+        full = dict((n, "%s.%s" % (sh, n)) for n in nodes)
+        for n in sorted(nodes):
+            spec = nodes[n]
+            t = spec[0]
+            fn = full[n]
+            KIND[fn] = t if t in ("parser", "combiner") else "ds"
+            if t == "pt":
+                DEPS[fn] = [full[m] for m in sorted(nodes) if nodes[m][0] == "impl" and nodes[m][1] == n]
+                FILTERABLE[fn] = spec[1]
+                if not spec[1]:
+                    MARKED_OFF.add(fn)
+            elif t == "impl":
+                DEPS[fn] = [full[m] for m in (spec[2] if len(spec) > 2 else [])]
+                FILTERABLE[fn] = nodes[spec[1]][1]
+                if not nodes[spec[1]][1]:
+                    MARKED_OFF.add(fn)
+            elif t in ("fo", "ds", "parser", "combiner"):
+                DEPS[fn] = [full[m] for m in spec[1]]
+                if t in ("fo", "ds"):
+                    FILTERABLE[fn] = False
+            else:
+                DEPS[fn] = []
+                FILTERABLE[fn] = False
+        comps = [full[n] for n in sorted(nodes)]
+        FIXTURES[sh] = {"comps": comps, "add": comps, "bad": [], "get": [c for c in comps if KIND[c] == "ds"]}
+
+
+_declare_shapes()
+PART_A = [n for g in sorted(FIXTURES) for n in FIXTURES[g]["comps"]]
 
 NF_FACTORIES = ["simple_file", "glob_file", "first_file", "simple_command", "command_with_args",
                 "foreach_execute", "foreach_collect"]
@@ -142,6 +200,46 @@ def _dependents(t):
 
 class NotApplicable(Exception):
     pass
+
+
+class Invalid(Exception):
+    """An argument add_filter documents as refused (empty filter string, wrong pattern type, max_match that is not a
+    positive int)."""
+
+
+def _decode_arg(x):
+    """JSON descriptor -> Python argument: {"set": [...]} / {"tuple": [...]} / {"arg": literal} / plain value."""
+    if isinstance(x, dict):
+        if "set" in x:
+            return set(x["set"])
+        if "tuple" in x:
+            return tuple(x["tuple"])
+        return x["arg"]
+    return x
+
+
+def _model_patterns(p):
+    """The strings a pattern argument registers ("A string, list of strings, or set of strings"); Invalid otherwise."""
+    p = _decode_arg(p)
+    if isinstance(p, str):
+        ps = [p]
+    elif isinstance(p, (list, set)):
+        ps = sorted(p, key=repr)
+    else:
+        raise Invalid("Filter patterns must be of type string, list, or set")
+    if any(not isinstance(x, str) or not x for x in ps):
+        raise Invalid("Filter patterns must not be empty")
+    return ps
+
+
+def _model_budget(m):
+    """None = argument omitted (MAX_MATCH). Otherwise "It can only be a positive integer" (bool is not an int here)."""
+    if m is None:
+        return DEFAULT_BUDGET
+    m = _decode_arg(m)
+    if type(m) is not int or m <= 0:
+        raise Invalid("max_match can only be a positive integer")
+    return m
 
 
 # What "the filter set in force" means per look-up target (get_filters read against the statement):
@@ -191,10 +289,18 @@ class RefModel(object):
         return land
 
     def add(self, t, p, m):
-        m = DEFAULT_BUDGET if m is None else m
-        for c in self.landing(t):
+        """-> "ok", or "either" for an EMPTY list / set (nothing to register; the code does not say whether that is an
+        error).  Raises Invalid / NotApplicable for the documented refusals; the model is unchanged then."""
+        ps = _model_patterns(p)
+        m = _model_budget(m)
+        land = self.landing(t)
+        if not ps:
+            return "either"
+        for c in land:
             tab = self.F.setdefault(c, {})
-            tab[p] = max(tab.get(p, 0), m)
+            for x in ps:
+                tab[x] = max(tab.get(x, 0), m)
+        return "ok"
 
     @staticmethod
     def chain(t):
@@ -224,7 +330,7 @@ class RefModel(object):
         if not wm:
             return None if obs == want else want
         exp = dict((p, self.budget_options(t, p)) for p in want)
-        if sorted(obs) != want:
+        if not isinstance(obs, dict) or sorted(obs) != want:
             return {"keys": want, "budget_one_of": exp}
         for p in want:
             if obs[p] not in exp[p]:
@@ -245,9 +351,15 @@ def literal_keys(events, t):
         return seen
     out = set()
     for ev in events:
-        if ev[0] == "add" and ev[1] in ADD_TARGETS and t in reach(ev[1]):
-            out.add(ev[2])
-    return out
+        if ev[0] == "add" and t in reach(ev[1]):
+            try:
+                if not RefModel.landing(ev[1]):
+                    continue
+                _model_budget(ev[3])
+                out.update(_model_patterns(ev[2]))
+            except (Invalid, NotApplicable):
+                pass
+    return set() if t in MARKED_OFF else out
 
 
 # ---------------------------------------------------------------------------------------------
@@ -390,6 +502,14 @@ def _build():
     for f in NF_FACTORIES:
         fx.comp["NF_" + f] = getattr(C07Specs, "nf_" + f)
         fx.comp["INF_" + f] = getattr(C07Host, "nf_" + f)
+    shape_classes = []
+    for sh in sorted(SHAPES):
+        shape_classes += _build_shape(fx, sh, SHAPES[sh])
+    # dumps() names components, loads() resolves the names by import: make the SpecSet classes importable
+    for cls in [C07Specs, C07Host, C07Archive, C07NSpecs, C07NHost, C07MSpecs, C07MHost] + shape_classes:
+        globals()[cls.__name__] = cls
+    for c in fx.comp.values():
+        dr.COMPONENT_IMPORT_CACHE.pop(dr.get_name(c), None)
     fx.all = list(fx.comp.values())
     fx.allset = set(fx.all)
     fx.parts = dict((g, [fx.comp[n] for n in FIXTURES[g]["comps"]]) for g in FIXTURES)
@@ -448,6 +568,63 @@ def _owned(k, inset):
     if isinstance(k, (tuple, frozenset, list, set)):
         return any(_owned(x, inset) for x in k)
     return False
+
+
+def _build_shape(fx, sh, nodes):
+    """Builds one declared shape with the real machinery; returns the SpecSet classes it created."""
+    from insights.core import Parser
+    from insights.core.context import HostContext
+    from insights.core.plugins import parser, combiner, datasource
+    from insights.core.spec_factory import RegistryPoint, SpecSet, SpecSetMeta, first_of, simple_file
+    comp, classes = {}, []
+    attr = dict((n, n.lower()) for n in nodes)
+    for n in sorted(nodes):
+        if nodes[n][0] == "n":
+            comp[n] = simple_file("/in_file", context=HostContext)
+    base = SpecSetMeta("C07x_%s" % sh, (SpecSet,),
+                       dict([("__module__", __name__)] + [(attr[n], RegistryPoint(filterable=nodes[n][1]))
+                                                         for n in sorted(nodes) if nodes[n][0] == "pt"]))
+    classes.append(base)
+    for n in sorted(nodes):
+        if nodes[n][0] == "pt":
+            comp[n] = getattr(base, attr[n])
+    todo = [n for n in sorted(nodes) if n not in comp]
+    while todo:
+        progressed = False
+        for n in list(todo):
+            spec = nodes[n]
+            t = spec[0]
+            deps = spec[2] if t == "impl" and len(spec) > 2 else ([] if t == "impl" else spec[1])
+            if any(d not in comp for d in deps):
+                continue
+            if t == "impl":
+                obj = first_of([comp[d] for d in deps]) if deps else simple_file("/in_file", context=HostContext)
+                cls = SpecSetMeta("C07x_%s_%s" % (sh, n), (base,), {"__module__": __name__, attr[spec[1]]: obj})
+                classes.append(cls)
+                comp[n] = getattr(cls, attr[spec[1]])
+            elif t == "fo":
+                comp[n] = first_of([comp[d] for d in deps])
+            elif t == "ds":
+                def helper(*args):
+                    return ["helper"]
+                helper.__name__ = "c07x_%s_%s" % (sh, attr[n])
+                comp[n] = datasource(*[comp[d] for d in deps])(helper)
+            elif t == "parser":
+                cls = type("C07x_%s_%s" % (sh, n), (Parser,), {"__module__": __name__,
+                                                               "parse_content": lambda self, content: None})
+                comp[n] = parser(*[comp[d] for d in deps])(cls)
+            else:
+                def comb(*args):
+                    return args
+                comb.__name__ = "c07x_%s_%s" % (sh, attr[n])
+                comp[n] = combiner(*[comp[d] for d in deps])(comb)
+            todo.remove(n)
+            progressed = True
+        if not progressed:
+            raise RuntimeError("shape %s has a cycle" % sh)
+    for n in nodes:
+        fx.comp["%s.%s" % (sh, n)] = comp[n]
+    return classes
 
 
 def _reset_tables(fx, inset=None, containers=None):
@@ -687,13 +864,20 @@ def _memo_targets(real):
     return out
 
 
-def _has_int(cv, n):
-    """an integer n occurs somewhere as a VALUE of the canonical state (component indices do not count)"""
+def _has_val(cv, n):
+    """the scalar n occurs somewhere in the ENTRIES of the canonical state (component indices, tags, names excluded)"""
     if cv.__class__ is tuple:
-        if len(cv) == 2 and cv[0] == "c":
+        if len(cv) == 2 and cv[0].__class__ is str and cv[0] in ("c", "o"):
             return False
-        return any(_has_int(x, n) for x in cv)
-    return cv.__class__ is int and cv == n
+        if len(cv) == 2 and cv[0].__class__ is str and cv[0] in ("D", "d", "l", "t", "s"):
+            return _has_val(cv[1], n)
+        if len(cv) == 3 and cv[1].__class__ is str and cv[1] in ("d", "l", "s") and cv[0].__class__ is str:
+            return _has_val(cv[2], n)          # (container name, kind, entries)
+        return any(_has_val(x, n) for x in cv)
+    return cv.__class__ is n.__class__ and cv == n
+
+
+_has_int = _has_val
 
 
 def _do(fx, ev):
@@ -703,12 +887,20 @@ def _do(fx, ev):
             r = fx.filters.get_filters(fx.comp[ev[1]], ev[2])
         except Exception as ex:
             return "raised " + type(ex).__name__
-        return dict(r) if ev[2] else sorted(r)
+        if ev[2]:
+            return dict(r) if isinstance(r, dict) else "not a dict: " + type(r).__name__
+        return sorted(r) if isinstance(r, (set, frozenset)) else "not a set: " + type(r).__name__
+    if ev[0] == "roundtrip":
+        try:
+            fx.filters.loads(fx.filters.dumps())
+        except Exception as ex:
+            return "raised " + type(ex).__name__
+        return "ok"
     try:
         if ev[3] is None:
-            fx.filters.add_filter(fx.comp[ev[1]], ev[2])
+            fx.filters.add_filter(fx.comp[ev[1]], _decode_arg(ev[2]))
         else:
-            fx.filters.add_filter(fx.comp[ev[1]], ev[2], ev[3])
+            fx.filters.add_filter(fx.comp[ev[1]], _decode_arg(ev[2]), _decode_arg(ev[3]))
     except Exception as ex:
         return "raised " + type(ex).__name__
     return "ok"
@@ -719,10 +911,16 @@ def _judge_event(model, ev, obs):
     if ev[0] == "get":
         exp = model.judge_lookup(ev[1], ev[2], obs)
         return None if exp is None else (CL_LOOKUP, exp, obs)
+    if ev[0] == "roundtrip":      # persisting and re-loading the registrations changes nothing
+        return None if obs == "ok" else (CL_ROUNDTRIP, "ok", obs)
     try:
-        model.add(ev[1], ev[2], ev[3])
+        how = model.add(ev[1], ev[2], ev[3])
     except NotApplicable:
         return None if obs.startswith("raised") else (CL_RAISE, "an exception (filters are not applicable to this target)", obs)
+    except Invalid as inv:
+        return None if obs.startswith("raised") else (CL_INVALID, "an exception (%s)" % inv, obs)
+    if how == "either":
+        return None
     return None if obs == "ok" else (CL_ADD_OK, "ok", obs)
 
 
@@ -740,10 +938,13 @@ def _stale_feature(events, n, obs):
                 first_get_model = RefModel(model.key())
                 other_add_since = False
             continue
+        if ev[0] != "add":
+            continue
         try:
             land = model.landing(ev[1])
-            model.add(ev[1], ev[2], ev[3])
-        except NotApplicable:
+            if model.add(ev[1], ev[2], ev[3]) != "ok":
+                continue
+        except (NotApplicable, Invalid):
             continue
         if x in land:
             first_get_model = None          # the real code evicts X's cache entry here
@@ -776,6 +977,22 @@ def check_history(case):
         _reset_tables(fx)
 
 
+def extra_events(t, t2):
+    """Boundary / typed arguments, once per state on the fixture's first add target t (t2 = its last add target):
+    documented refusals (must raise, nothing registered), every documented pattern type, an explicit max_match equal to
+    the default, an empty list / set (either outcome), and a dumps() -> loads() round trip of the registration table."""
+    bad_budgets = [{"arg": 0}, {"arg": -1}, {"arg": None}, {"arg": True}, {"arg": False}, {"arg": "1"}, {"arg": 1.0}]
+    ev = [["add", t, "a", m] for m in bad_budgets]
+    ev += [["add", t, "", None], ["add", t, ["a", ""], None], ["add", t2, ["", "b"], 1], ["add", t, {"set": ["", "a"]}, None],
+           ["add", t, {"tuple": ["a"]}, None], ["add", t, {"arg": None}, None], ["add", t, {"arg": 5}, None],
+           ["add", t, {"arg": 0}, None], ["add", t, {"arg": False}, None], ["add", t, "", {"arg": 0}]]
+    ev += [["add", t, [], None], ["add", t, {"set": []}, None], ["add", t2, [], 1]]
+    ev += [["add", t, ["a"], None], ["add", t, ["b", "a"], 1], ["add", t2, ["a", "b"], None], ["add", t, {"set": ["a", "b"]}, None],
+           ["add", t2, {"set": ["b"]}, 1], ["add", t, ["a", "a"], None], ["add", t, "a", {"arg": DEFAULT_BUDGET}]]
+    ev += [["roundtrip"]]
+    return ev
+
+
 def _history_final_canon(fx, events, g="main"):
     _reset_tables(fx)
     for ev in events:
@@ -795,6 +1012,10 @@ def explore_histories(unit, res):
     ev_add += [["add", t, patterns[0], None] for t in G["bad"]]
     get_idx = dict((t, G["comps"].index(t)) for t in GET_TARGETS)
     first_get = GET_TARGETS[0]
+    n_plain = len(ev_add)
+    if unit.get("extras"):
+        ev_add += extra_events(G["add"][0], G["add"][-1])
+    only_extras = unit.get("count_only") == "extras"
     get_set = set(get_idx.values())
     _reset_tables(fx)
     k0 = (_canon(fx, g), RefModel().key())
@@ -811,7 +1032,13 @@ def explore_histories(unit, res):
         h.reverse()
         return h
 
+    onlyp = unit.get("count_only_with_pattern")
+
     def counted(real, ev):
+        if only_extras:
+            return any(ev is x for x in ev_add[n_plain:])
+        if onlyp is not None:
+            return (ev[0] == "add" and ev[2] == onlyp) or _has_val(real[0], onlyp)
         if only2 is None:
             return True
         return (ev[0] == "add" and ev[3] == only2) or _has_int(real[0], only2)
@@ -860,7 +1087,7 @@ def explore_histories(unit, res):
                     cex.append((history(key, ev), v[0]))
                     res.outcomes.add("add:wrong")
                     continue
-                res.outcomes.add("add:%s:%s" % (ev[1], obs))
+                res.outcomes.add("%s:%s:%s" % (ev[0], ev[1] if len(ev) > 1 else "", obs))
                 succ.append(((_canon(fx, g), model.key()), ev))
             for k2, ev in succ:
                 if k2 not in parent:
@@ -1354,6 +1581,21 @@ def units(tier, seed):
     # nested specs (first_of members): a second, small graph explored to closure on the full alphabet in both tiers
     us.append({"part": "history", "fixture": "nested", "name": "nested_ab_1_2_default", "patterns": ["a", "b"],
                "budgets": [1, 2, None]})
+    # further small shapes (three implementations, two-level nesting, combiner over two parsers, combiner on a point and a
+    # parser, parser over three points, helper datasource on top of a point / parser on an implementation)
+    for sh in sorted(SHAPES):
+        if tier == "quick":
+            us.append({"part": "history", "fixture": sh, "name": "%s_a_1_default" % sh, "patterns": ["a"], "budgets": [1, None]})
+        else:
+            us.append({"part": "history", "fixture": sh, "name": "%s_a_1_2_default" % sh, "patterns": ["a"],
+                       "budgets": [1, 2, None]})
+            us.append({"part": "history", "fixture": sh, "name": "%s_ab_default" % sh, "patterns": ["a", "b"],
+                       "budgets": [None], "count_only_with_pattern": "b"})
+    # boundary / typed arguments and the dumps-loads round trip as extra events in every state of a small closure of
+    # each graph (only the extra transitions are counted: the plain ones are covered by the units above)
+    for g in ("main", "multi", "nested"):
+        us.append({"part": "history", "fixture": g, "name": "%s_extras" % g, "patterns": ["a"], "budgets": [None],
+                   "extras": True, "count_only": "extras"})
     k = 2 if tier == "quick" else 4
     for si in range(len(filter_sets(tier))):
         for j in range(k):
